@@ -90,6 +90,44 @@ def step15 (d : Nuts.Drv.Proto.DSt) (j : Json) : Nuts.Drv.Proto.DSt × List Stri
     -- `connect` disconnects at once unless streams are live; a live connection is disconnected when a stream ends
     let after := match con.2 with | .blocked => Nuts.C15.disconnect con.1 | _ => con.1
     (d, [s!"outbound {res} [{String.intercalate " " trace}] end={showConn fin.1} after={showConn after} listed=0"])
+  | "mixed" =>
+    -- inbound streams and dialled connections interleaved on ONE connection list
+    let tab (k : String) (x : String) : Option String :=
+      (jArr j k).findSome? (fun p => match p with
+        | .arr a => if (a[0]?.bind (fun v => v.getStr?.toOption)) == some x then a[1]?.bind (fun v => v.getStr?.toOption) else none
+        | _ => none)
+    let E : Nuts.C15.InEnv := {
+      kind := if jStr j "kind" == "dummy" then .dummy else .tls,
+      auth := { parseHost := fun ep => some ep, verifyHostname := fun dns h => dns.contains h },
+      parseDID := tab "didtab", resolve := tab "endpoints" }
+    let plus (l : List String) : String := String.intercalate "+" l
+    let showConn (c : Nuts.C15.Conn) : String :=
+      let dns := plus (c.cert.getD ["-"])
+      let sids := plus (c.streams.map (fun s => toString s.sid))
+      s!"{c.id}~{c.peer.did}~{c.peer.authenticated}~{dns}~{sids}"
+    let snap (cs : List Nuts.C15.Conn) : String := String.intercalate "," (cs.map showConn)
+    let (_, outs) := (jArr j "events").foldl (fun (acc : List Nuts.C15.Conn × List String) ev =>
+      let (cs, outs) := acc
+      let crt : Option (List String) := if jBool ev "hascert" then some (jStrs ev "cert") else none
+      let (mev, rs) : Nuts.C15.MEv × String := match jStr ev "e" with
+        | "close" => (.close (jNat ev "sid"), "closed")
+        | "dial" => (.dial (jStr ev "addr") (jStr ev "x"), if (Nuts.C15.dialOut cs (jStr ev "addr") (jStr ev "x")).2 then "dialled" else "exists")
+        | "outend" => (.outEnd (jNat ev "i"), if jNat ev "i" < cs.length then "ended" else "noconn")
+        | "outstream" =>
+          let s : Nuts.C15.OutStream := ⟨jNat ev "sid", jStr ev "proto", jBool ev "createfails", jBool ev "headerfails", jStrs ev "pids", jStrs ev "dids", jBool ev "other", crt⟩
+          (.outStream (jNat ev "i") s, match cs[jNat ev "i"]? with
+            | none => "noconn"
+            | some c => match (Nuts.C15.openOutboundStream E c s).2 with
+              | .opened => "opened" | .skipped => "skipped"
+              | .fatal w => if w == "maintenance" || w == "auth" then "authfailed" else w)
+        | _ =>
+          let s : Nuts.C15.StreamIn := ⟨jNat ev "sid", jStrs ev "pids", jStrs ev "dids", crt, jStr ev "proto"⟩
+          (.inOpen s, match (Nuts.C15.handleInbound E cs s).2 with
+            | .errMetadata => "meta" | .errAuth => "auth" | .alreadyConnected => "already" | .joined i => s!"joined{i}")
+      let cs' := Nuts.C15.stepM E cs mev
+      (cs', outs ++ [s!"{rs}|{snap cs'}"])) (([] : List Nuts.C15.Conn), ([] : List String))
+    let body := String.intercalate " ; " outs
+    (d, [s!"mixed {body}"])
   | "createtx" =>
     let parts : List Nuts.C15.KeyRes := (jStrs j "parts").map (fun x => match x with
       | "ok" => .ok | "deactivated" => .deactivated | "badkey" => .badKey | _ => .notFound)
